@@ -47,6 +47,18 @@ def _folded_li_immediate(
     return None
 
 
+def _is_stable(value: SSAValue) -> bool:
+    """
+    Whether `value` can still be read after the operations that used it so far.
+    This is the case for a value without an assigned register, and for `zero`. Once
+    registers are allocated, the register of `value` may already hold another value.
+    """
+    value_type = value.type
+    if not isinstance(value_type, riscv.RISCVRegisterType):
+        return False
+    return not value_type.is_allocated or value_type == riscv.Registers.ZERO
+
+
 class RemoveRedundantMv(RewritePattern):
     @op_type_rewrite_pattern
     def match_and_rewrite(self, op: riscv.MVOp, rewriter: PatternRewriter) -> None:
@@ -339,6 +351,7 @@ class XoriSelfInverse(RewritePattern):
             and isinstance(op.immediate, IntegerAttr)
             and isinstance(op.rs1.op.immediate, IntegerAttr)
             and op.immediate.value.data == op.rs1.op.immediate.value.data
+            and _is_stable(op.rs1.op.rs1)
         ):
             rd = op.rd.type
             can_erase = op.rs1.op.rd.has_one_use()
@@ -360,6 +373,7 @@ class XoriOfXori(RewritePattern):
             and isinstance(inner_op := op.rs1.op, riscv.XoriOp)
             and isinstance(op.immediate, IntegerAttr)
             and isinstance(inner_op.immediate, IntegerAttr)
+            and _is_stable(inner_op.rs1)
         ):
             combined_immediate = inner_op.immediate.value.data ^ op.immediate.value.data
             new_op = riscv.XoriOp(inner_op.rs1, combined_immediate, rd=op.rd.type)
@@ -463,6 +477,7 @@ class LoadWordWithKnownOffset(RewritePattern):
             and _fits_si12(
                 offset := op.rs1.op.immediate.value.data + op.immediate.value.data
             )
+            and _is_stable(op.rs1.op.rs1)
         ):
             rd = op.rd.type
             rewriter.replace(
@@ -486,6 +501,7 @@ class StoreWordWithKnownOffset(RewritePattern):
             and _fits_si12(
                 offset := op.rs1.op.immediate.value.data + op.immediate.value.data
             )
+            and _is_stable(op.rs1.op.rs1)
         ):
             rewriter.replace(
                 op,
@@ -509,6 +525,7 @@ class LoadFloatWordWithKnownOffset(RewritePattern):
             and _fits_si12(
                 offset := op.rs1.op.immediate.value.data + op.immediate.value.data
             )
+            and _is_stable(op.rs1.op.rs1)
         ):
             rd = op.rd.type
             rewriter.replace(
@@ -532,6 +549,7 @@ class StoreFloatWordWithKnownOffset(RewritePattern):
             and _fits_si12(
                 offset := op.rs1.op.immediate.value.data + op.immediate.value.data
             )
+            and _is_stable(op.rs1.op.rs1)
         ):
             rewriter.replace(
                 op,
@@ -555,6 +573,7 @@ class LoadDoubleWithKnownOffset(RewritePattern):
             and _fits_si12(
                 offset := op.rs1.op.immediate.value.data + op.immediate.value.data
             )
+            and _is_stable(op.rs1.op.rs1)
         ):
             rd = op.rd.type
             rewriter.replace(
@@ -578,6 +597,7 @@ class StoreDoubleWithKnownOffset(RewritePattern):
             and _fits_si12(
                 offset := op.rs1.op.immediate.value.data + op.immediate.value.data
             )
+            and _is_stable(op.rs1.op.rs1)
         ):
             rewriter.replace(
                 op,
